@@ -50,6 +50,7 @@ type rpcGroup struct {
 	Subnets     map[string]string `json:"subnets"` // peer -> subnet name
 	NRpc        int               `json:"nrpc"`
 	Paths       [][]rpcStep       `json:"paths"`
+	Plan        addrPlan          `json:"plan"` // how the map is realised with addresses ("" = rotate over plansFor by path number)
 }
 
 type rpcReplayIn struct {
@@ -63,8 +64,9 @@ type rpcRig struct {
 	nd      *node
 	clients map[string]*client
 	peers   []string
-	subIdx  map[string]int // subnet name -> index of its loopback address
+	subIdx  map[string]int // subnet name -> index of its loopback network
 	g       *rpcGroup
+	plan    addrPlan
 }
 
 func peerIdx(name string) int {
@@ -73,8 +75,8 @@ func peerIdx(name string) int {
 	return i
 }
 
-func newRPCRig(g *rpcGroup, maxIn int) (*rpcRig, error) {
-	rg := &rpcRig{clients: map[string]*client{}, subIdx: map[string]int{}, g: g}
+func newRPCRig(g *rpcGroup, maxIn int, plan addrPlan) (*rpcRig, error) {
+	rg := &rpcRig{clients: map[string]*client{}, subIdx: map[string]int{}, g: g, plan: plan}
 	for p := range g.Subnets {
 		rg.peers = append(rg.peers, p)
 	}
@@ -85,13 +87,13 @@ func newRPCRig(g *rpcGroup, maxIn int) (*rpcRig, error) {
 		}
 	}
 	subnetOf := func(p int) string { return g.Subnets[pname(p)] }
-	nd, err := newNode(nodeCfg{MaxInflight: g.MaxInflight, MaxSubnet: g.MaxSubnet, MaxIn: maxIn, MaxOut: 0, SubnetOf: subnetOf})
+	nd, err := newNode(nodeCfg{Prefix4: plan.bits(), MaxInflight: g.MaxInflight, MaxSubnet: g.MaxSubnet, MaxIn: maxIn, MaxOut: 0, SubnetOf: subnetOf})
 	if err != nil {
 		return nil, err
 	}
 	rg.nd = nd
 	for _, p := range rg.peers {
-		c := newClient(peerIdx(p), subnetIP(rg.subIdx[g.Subnets[p]]), 20000+peerIdx(p), nd.genesis)
+		c := newClient(peerIdx(p), plan.peerIP(rg.subIdx[g.Subnets[p]], peerIdx(p)), 20000+peerIdx(p), nd.genesis)
 		if err := c.connect(nd.s.Addr()); err != nil {
 			return nil, err
 		}
@@ -133,8 +135,9 @@ func (rg *rpcRig) observe(maxR int) rpcObs {
 	sort.Strings(o.Answered)
 	sort.Strings(o.Failed)
 	ipToSub := map[string]string{}
-	for name, i := range rg.subIdx {
-		ipToSub[subnetIP(i)+"/32"] = name
+	for _, p := range rg.peers {
+		name := rg.g.Subnets[p]
+		ipToSub[rg.plan.key(rg.subIdx[name], peerIdx(p))] = name // any other key shows up under its own name
 	}
 	for k, v := range rg.nd.s.VerifInflightSubnet() {
 		if v != 0 {
@@ -168,8 +171,8 @@ func (rg *rpcRig) settle(want rpcObs, maxR int) (rpcObs, bool) {
 }
 
 // runRPCPath executes one path literally; returns a description of the first divergence ("" = none).
-func runRPCPath(g *rpcGroup, path []rpcStep, res *hx.Result, probe bool) (sig, desc string, at int) {
-	rg, err := newRPCRig(g, 64)
+func runRPCPath(g *rpcGroup, path []rpcStep, res *hx.Result, probe bool, plan addrPlan) (sig, desc string, at int) {
+	rg, err := newRPCRig(g, 64, plan)
 	if err != nil {
 		return "infra", err.Error(), -1
 	}
@@ -196,11 +199,11 @@ func runRPCPath(g *rpcGroup, path []rpcStep, res *hx.Result, probe bool) (sig, d
 		default:
 			return "infra", "unknown action " + st.Act.Op, i
 		}
-		res.Eval(fmt.Sprintf("%d/%d|%s.%s.%d|%s", g.MaxInflight, g.MaxSubnet, st.Act.Op, st.Act.P, st.Act.R, st.Obs.String()))
+		res.Eval(fmt.Sprintf("%d/%d/%s|%s.%s.%d|%s", g.MaxInflight, g.MaxSubnet, plan, st.Act.Op, st.Act.P, st.Act.R, st.Obs.String()))
 		got, ok := rg.settle(st.Obs, g.NRpc)
 		if !ok {
-			return "replay:rpc:" + st.Act.Op + ":" + classify(got, st.Obs, g), fmt.Sprintf("after %s(%s,%d) [maxInflight=%d maxSubnet=%d] the syncer shows %s, the specification's settled state is %s",
-				st.Act.Op, st.Act.P, st.Act.R, g.MaxInflight, g.MaxSubnet, got, st.Obs), i
+			return "replay:rpc:" + st.Act.Op + ":" + classify(got, st.Obs, g), fmt.Sprintf("after %s(%s,%d) [maxInflight=%d maxSubnet=%d, addresses %s: %s] the syncer shows %s, the specification's settled state is %s",
+				st.Act.Op, st.Act.P, st.Act.R, g.MaxInflight, g.MaxSubnet, plan, rg.addrDesc(), got, st.Obs), i
 		}
 		// hard caps, independent of the oracle
 		if s, d := rg.capViolation(); s != "" {
@@ -213,6 +216,14 @@ func runRPCPath(g *rpcGroup, path []rpcStep, res *hx.Result, probe bool) (sig, d
 		}
 	}
 	return "", "", 0
+}
+
+func (rg *rpcRig) addrDesc() string {
+	var parts []string
+	for _, p := range rg.peers {
+		parts = append(parts, fmt.Sprintf("%s=%s in %s", p, rg.clients[p].srcIP, rg.plan.key(rg.subIdx[rg.g.Subnets[p]], peerIdx(p))))
+	}
+	return strings.Join(parts, ", ")
 }
 
 // classify names the kind of divergence for the signature.
@@ -381,10 +392,16 @@ func TestReplayRPC(t *testing.T) {
 		go func(j job) {
 			defer wg.Done()
 			defer func() { <-sem }()
-			sig, desc, at := runRPCPath(j.g, j.path, res, true)
+			plan := j.g.Plan
+			if plan == "" {
+				ps := plansFor(j.g.Subnets)
+				plan = ps[j.no%len(ps)]
+			}
+			res.Count("plan_"+string(plan), 1)
+			sig, desc, at := runRPCPath(j.g, j.path, res, true, plan)
 			if sig != "" && sig != "infra" {
 				// timing discipline: re-run the path once before reporting
-				sig, desc, at = runRPCPath(j.g, j.path, res, true)
+				sig, desc, at = runRPCPath(j.g, j.path, res, true, plan)
 			}
 			if sig == "infra" {
 				res.Note("path %d: %s", j.no, desc)
@@ -397,12 +414,12 @@ func TestReplayRPC(t *testing.T) {
 					upto = len(j.path)
 				}
 				res.Mismatch(sig, fmt.Sprintf("path %d step %d: %s", j.no, at, desc),
-					map[string]any{"kind": "rpc-path", "group": rpcGroup{MaxInflight: j.g.MaxInflight, MaxSubnet: j.g.MaxSubnet, Subnets: j.g.Subnets, NRpc: j.g.NRpc, Paths: [][]rpcStep{j.path[:upto]}}})
+					map[string]any{"kind": "rpc-path", "group": rpcGroup{MaxInflight: j.g.MaxInflight, MaxSubnet: j.g.MaxSubnet, Subnets: j.g.Subnets, NRpc: j.g.NRpc, Plan: plan, Paths: [][]rpcStep{j.path[:upto]}}})
 			}
 			res.Count("paths", 1)
 			res.Count("steps", len(j.path))
 			if j.no == 0 {
-				res.Sample(map[string]any{"maxInflight": j.g.MaxInflight, "maxSubnet": j.g.MaxSubnet, "subnets": j.g.Subnets, "path": j.path})
+				res.Sample(map[string]any{"maxInflight": j.g.MaxInflight, "maxSubnet": j.g.MaxSubnet, "subnets": j.g.Subnets, "addresses": plan, "path": j.path})
 			}
 		}(j)
 	}
@@ -412,4 +429,8 @@ func TestReplayRPC(t *testing.T) {
 		res.Mismatch("replay:rpc:goroutines-survive-close", fmt.Sprintf("%d goroutines are still inside the syncer package after every Syncer.Close returned", syncerGoroutines()), nil)
 	}
 	res.Count("groups", len(in.Groups))
+	if !loopbackAliases() {
+		res.Count("alias_unavailable", 1)
+		res.Note("loopback aliases (127.0.20.x ...) cannot be bound here: the subnet limit was exercised with one address per subnet only")
+	}
 }
